@@ -8,6 +8,7 @@ of delegated phases (`remote`; the teardown of a delegated phase is characterise
 no state between passes.
 -/
 import Pko.Lemmas.ObjectSet
+import Pko.Model.Slices
 
 namespace Pko.Props.C04
 open Pko.Kube Pko.Model.Phase Pko.Model.ObjectSet Pko.Model.Status
@@ -287,7 +288,7 @@ theorem teardown_done (cfg : Cfg) (ow : Owner) (remote : RemoteTear) :
 /-- events on the ObjectSet itself that release it -/
 def Releases (name : String) : SetEvent → Prop
   | .finalizerPatch n add _ => n = name ∧ add = false
-  | .statusUpdate n _ _ conds _ => n = name ∧ condTrue conds "Archived" = true
+  | .statusUpdate n _ _ conds _ _ => n = name ∧ condTrue conds "Archived" = true
 
 /-- **finalizer_held.** In the deletion / archival branch of the controller pass: if the teardown
 of the pass did not return done, no event of the pass removes the finalizer or reports
@@ -353,5 +354,122 @@ example :
     let r := teardownPhases cfg ow none' [⟨"p2", "", [b]⟩, ⟨"p1", "", [a]⟩] w
     r.2 = .notDone ∧ r.1.events.length = 1 := by
   exact ⟨rfl, rfl⟩
+
+/-! ### ObjectSets whose phases keep objects in ObjectSlices
+
+`Pko.Model.Slices.reconcileSliced` (model of `sliceLoadingTeardownHandler` + the slice loader): the
+teardown of a sliced ObjectSet is the teardown of the ObjectSet with EVERY slice inlined, or it
+does not happen at all. -/
+section sliced
+open Pko.Model.Slices
+
+/-- What a successful load of one phase returns: the inline objects followed by the objects of
+every referenced slice, in order — and every referenced slice existed. -/
+theorem loadPhase_some (slices : List (String × List PObj)) :
+    ∀ (names : List String) (ph ph' : PhaseSpec), loadPhase slices ph names = some ph' →
+      ph'.name = ph.name ∧ ph'.cls = ph.cls ∧
+      ph'.objs = ph.objs ++ names.flatMap (fun n => (slices.lookup n).getD []) ∧
+      ∀ n ∈ names, slices.lookup n ≠ none := by
+  intro names
+  induction names with
+  | nil => intro ph ph' h; simp only [loadPhase, Option.some.injEq] at h; subst h; simp
+  | cons n rest ih =>
+    intro ph ph' h
+    simp only [loadPhase] at h
+    cases hl : slices.lookup n with
+    | none => simp [hl] at h
+    | some objs =>
+      simp only [hl] at h
+      obtain ⟨h1, h2, h3, h4⟩ := ih _ _ h
+      refine ⟨h1, h2, ?_, ?_⟩
+      · rw [h3]; simp [hl, List.append_assoc]
+      · intro m hm
+        rcases List.mem_cons.1 hm with rfl | hm
+        · simp [hl]
+        · exact h4 m hm
+
+/-- A referenced slice that no longer exists makes the load of the phase fail. -/
+theorem loadPhase_missing (slices : List (String × List PObj)) :
+    ∀ (names : List String) (ph : PhaseSpec) (n : String), n ∈ names → slices.lookup n = none →
+      loadPhase slices ph names = none := by
+  intro names
+  induction names with
+  | nil => intro _ _ h; cases h
+  | cons m rest ih =>
+    intro ph n hn hmiss
+    simp only [loadPhase]
+    cases hl : slices.lookup m with
+    | none => rfl
+    | some objs =>
+      rcases List.mem_cons.1 hn with rfl | hn
+      · rw [hmiss] at hl; cases hl
+      · exact ih _ n hn hmiss
+
+/-- … and with it the load of the whole ObjectSet, whichever phase references the slice. -/
+theorem loadPhases_missing (slices : List (String × List PObj)) :
+    ∀ (phs : List PhaseSpec) (refs : List (List String)),
+      (∃ pr ∈ phs.zip refs, ∃ n ∈ pr.2, slices.lookup n = none) → loadPhases slices phs refs = none := by
+  intro phs
+  induction phs with
+  | nil => intro refs ⟨pr, hpr, _⟩; simp at hpr
+  | cons ph rest ih =>
+    intro refs ⟨pr, hpr, n, hn, hmiss⟩
+    cases refs with
+    | nil => simp at hpr
+    | cons r rs =>
+      simp only [List.zip_cons_cons, List.mem_cons] at hpr
+      simp only [loadPhases, List.headD_cons, List.tail_cons]
+      rcases hpr with rfl | hpr
+      · rw [loadPhase_missing slices r ph n hn hmiss]
+      · cases loadPhase slices ph r with
+        | none => rfl
+        | some ph' => simp only; rw [ih rs ⟨pr, hpr, n, hn, hmiss⟩]
+
+/-- **sliced_teardown_aborts_on_missing_slice.** Deleting / archived ObjectSet holding the cached
+finalizer (not orphaned), some referenced ObjectSlice gone: the pass ends with an error and
+changes NOTHING — no object is deleted, the finalizer stays, no status (Archived) is written. -/
+theorem sliced_teardown_aborts_on_missing_slice (cfg : Cfg) (rm : Remotes) (refs : List (List String))
+    (name : String) (s : Sys) (mem : OSet)
+    (hget : s.sets name = some mem) (hna : condTrue mem.conds "Archived" = false)
+    (htear : mem.deleting = true ∨ mem.lifecycle = .archived)
+    (hfin : mem.finCached = true) (horph : mem.finOrphan = false)
+    (hmiss : ∃ pr ∈ mem.phases.zip refs, ∃ n ∈ pr.2, s.slices.lookup n = none) :
+    reconcileSliced cfg rm refs name s = (s, .err) := by
+  have hcase : (mem.deleting || decide (mem.lifecycle = .archived)) = true := by
+    rcases htear with h | h <;> simp [h]
+  simp [reconcileSliced, hget, hna, hcase, hfin, horph, loadPhases_missing _ _ _ hmiss]
+
+/-- **sliced_teardown_is_teardown_of_everything.** When every referenced slice exists, the pass is
+the deletion / archival pass of the ObjectSet with all slices inlined: `teardown_reverse_order`,
+`finalizer_held` & co. apply to ALL its objects, inline or sliced. -/
+theorem sliced_teardown_is_teardown_of_everything (cfg : Cfg) (rm : Remotes) (refs : List (List String))
+    (name : String) (s : Sys) (mem : OSet) (phs : List PhaseSpec)
+    (hget : s.sets name = some mem) (hna : condTrue mem.conds "Archived" = false)
+    (htear : mem.deleting = true ∨ mem.lifecycle = .archived)
+    (hfin : mem.finCached = true) (horph : mem.finOrphan = false)
+    (hload : loadPhases s.slices mem.phases refs = some phs) :
+    reconcileSliced cfg rm refs name s = deletionOrArchival cfg rm s { mem with phases := phs } := by
+  have hcase : (mem.deleting || decide (mem.lifecycle = .archived)) = true := by
+    rcases htear with h | h <;> simp [h]
+  simp [reconcileSliced, hget, hna, hcase, hfin, horph, hload]
+
+/-- Non-vacuity: one phase whose only object lives in a slice that was deleted: the archived
+ObjectSet is left exactly as it was (finalizer kept, no Archived condition). -/
+example :
+    let cfg : Cfg := { st := .native, flavour := ⟨true, true, true⟩, scope := fun _ => .namespaced, force := false }
+    let rm : Remotes := { recon := fun _ _ w => (w, .error .other), tear := fun _ _ w => (w, .err) }
+    let o : OSet :=
+      { (default : OSet) with
+        kind := "ObjectSet", ns := "ns1", name := "os1", uid := "uid-1", gen := 1, rv := 1,
+        finCached := true, lifecycle := .archived, phases := [⟨"p1", "", []⟩], revision := 1 }
+    let s : Sys :=
+      { w := { store := { objs := fun _ => none, nextUID := 2, nextRV := 2 }, writes := 0, env := [], events := [] },
+        sets := fun n => if n = "os1" then some o else none, setEvents := [], freed := [], setWrites := 0,
+        setEnv := [], slices := [] }
+    let r := reconcileSliced cfg rm [["os1-s1"]] "os1" s
+    r.2 = .err ∧ r.1.setEvents.length = 0 ∧ (r.1.sets "os1").map (·.finCached) = some true := by
+  exact ⟨rfl, rfl, rfl⟩
+
+end sliced
 
 end Pko.Props.C04
